@@ -942,3 +942,158 @@ func rC02Validation(w *World, r *Report) {
 		ru.Check(good, "ValidateMinMaxArgs/"+rj.desc, w.Pos(v.Pos()), rj.desc+" is rejected", "the case "+rj.desc+" is not rejected at definition time")
 	}
 }
+
+// R02.9 (also C01 R01.8, C10 R10.7): the intake loops stop for exactly the documented reasons.
+func rC02ExactStops(w *World, r *Report) { exactStops(w, r, "R02.9") }
+
+func exactStopsRule(id string) func(w *World, r *Report) {
+	return func(w *World, r *Report) { exactStops(w, r, id) }
+}
+
+func exactStops(w *World, r *Report, id string) {
+	ru := r.Rule(id, "exact stop set: the greedy loop is left only because the bound is reached, no token follows, the peeked token is `--`, looks like an option, or fails the element check of the kind (or by an error return); the mandatory loop only because the bound is reached or by an error return; and every path from the match to the greedy loop evaluates the mandatory loop's test. No other condition (e.g. the value equals a command name, an attached value exists) may end or skip the intake", 6)
+	m := parserOrFail(w, ru)
+	if m == nil {
+		return
+	}
+	loops := m.argLoops()
+	var minL, maxL *argLoop
+	for i := range loops {
+		if loops[i].field == "MinArgs" {
+			minL = &loops[i]
+		} else {
+			maxL = &loops[i]
+		}
+	}
+	if minL == nil || maxL == nil {
+		ru.Undecided("loops", w.Pos(m.fn.Pos()), "mandatory / greedy intake loops not found")
+		return
+	}
+	_, peek, _ := m.greedyAdvance()
+	var peeked ssa.Value
+	if peek != nil {
+		for _, ref := range *peek.Referrers() {
+			if ex, ok := ref.(*ssa.Extract); ok && ex.Index == 0 {
+				peeked = ex
+			}
+		}
+	}
+	check := func(l *argLoop, greedy bool) {
+		loop := naturalLoop(l.header)
+		for b := range loop {
+			for k, s := range b.Succs {
+				if loop[s] {
+					continue
+				}
+				iff, ok := b.Instrs[len(b.Instrs)-1].(*ssa.If)
+				key := "exit/" + l.field
+				if !ok {
+					ru.Bad(key, w.IPos(b.Instrs[len(b.Instrs)-1]), "unconditional exit from the intake loop")
+					continue
+				}
+				// exits that end in an error return are fine
+				if onlyErrorReturns(m, s) {
+					ru.OK(key+"/error", w.IPos(iff), "leaves through an error return")
+					continue
+				}
+				allowed := ""
+				for _, f := range condFacts(iff.Cond, k == 0, iff) {
+					switch {
+					case b == l.header:
+						allowed = "bound reached"
+					case !greedy:
+					case f.Op == token.ILLEGAL && !f.Truth && isCallOf(m, f.X, nIterExists):
+						allowed = "no following token"
+					case f.Op == token.ILLEGAL && f.Truth && isIsOptionOf(f.X, peeked):
+						allowed = "peeked token looks like an option"
+					case f.Op == token.EQL && f.Y != nil && isConstStr(f.Y, "--") && f.X == peeked:
+						allowed = "peeked token is the terminator"
+					case f.Op == token.NEQ && f.Y != nil && isNilConst(f.Y) && isConvErrOf(f.X, peeked):
+						allowed = "element conversion of the peeked token failed"
+					case f.Op == token.ILLEGAL && !f.Truth && isContainsEq(f.X, peeked):
+						allowed = "peeked token is not key=value"
+					case f.Op == token.ILLEGAL && !f.Truth && isPeekOk(m, f.X):
+						allowed = "no following token"
+					}
+				}
+				if allowed != "" {
+					ru.OK(key, w.IPos(iff), allowed)
+				} else {
+					ru.Bad(key, w.IPos(iff), "the "+map[bool]string{true: "greedy", false: "mandatory"}[greedy]+" intake loop is left for a reason outside the documented stop set: a value that should be consumed is refused (or the loop is cut short)")
+				}
+			}
+		}
+	}
+	check(minL, false)
+	check(maxL, true)
+	// the mandatory loop's test is evaluated on every path from the match to the greedy loop
+	lkIf, _ := m.lookupOkIf()
+	if lkIf != nil {
+		ok, _ := m.ig.mustPass(m.ig.edgeStart(lkIf.Block(), 0), func(in ssa.Instruction) bool { return in.Block() == minL.header }, func(in ssa.Instruction) bool { return in.Block() == maxL.header })
+		ru.Check(ok, "mandatory-loop/not-skipped", w.IPos(minL.iff), "the minimum is enforced on every path", "the mandatory intake can be skipped (e.g. when a value was attached with `=`): fewer than min values are accepted")
+	}
+}
+
+func onlyErrorReturns(m *parserModel, b *ssa.BasicBlock) bool {
+	seen := m.ig.reachFrom([]int{m.ig.first[b]}, nil)
+	n := 0
+	for i, s := range seen {
+		if !s {
+			continue
+		}
+		in := m.ig.instrs[i]
+		if in == ssa.Instruction(m.mainNext) {
+			return false
+		}
+		if ret, ok := in.(*ssa.Return); ok {
+			n++
+			if isNilConst(ret.Results[len(ret.Results)-1]) {
+				return false
+			}
+		}
+	}
+	return n > 0
+}
+
+func isCallOf(m *parserModel, v ssa.Value, name string) bool {
+	c, ok := v.(*ssa.Call)
+	return ok && m.iterCall(c, name)
+}
+
+func isIsOptionOf(v, arg ssa.Value) bool {
+	ex, ok := v.(*ssa.Extract)
+	if !ok || ex.Index != 1 {
+		return false
+	}
+	c, ok := ex.Tuple.(*ssa.Call)
+	return ok && calleeName(c) == nIsOption && c.Call.Args[0] == arg
+}
+
+func isConstStr(v ssa.Value, s string) bool { x, ok := constString(v); return ok && x == s }
+
+func isConvErrOf(v, arg ssa.Value) bool {
+	ex, ok := v.(*ssa.Extract)
+	if !ok || ex.Index != 1 {
+		return false
+	}
+	c, ok := ex.Tuple.(*ssa.Call)
+	if !ok || c.Call.Args[0] != arg {
+		return false
+	}
+	n := calleeName(c)
+	return n == "strconv.Atoi" || n == "strconv.ParseFloat"
+}
+
+func isContainsEq(v, arg ssa.Value) bool {
+	c, ok := v.(*ssa.Call)
+	return ok && calleeName(c) == "strings.Contains" && c.Call.Args[0] == arg && isConstStr(c.Call.Args[1], "=")
+}
+
+func isPeekOk(m *parserModel, v ssa.Value) bool {
+	ex, ok := v.(*ssa.Extract)
+	if !ok || ex.Index != 1 {
+		return false
+	}
+	c, ok := ex.Tuple.(*ssa.Call)
+	return ok && m.iterCall(c, nIterPeek)
+}
